@@ -406,15 +406,17 @@ func CellBytes(data []byte, pos int, typ byte, metadata uint16, isUnSignedInt bo
 
 	case TypeTime:
 		var hour, minute, second int32
+		sign := ""
 		if data[pos+2]&128 > 0 {
 			// Negative number, have to extend the sign.
-			val := int32(uint32(data[pos]) +
+			val := -int32(uint32(data[pos]) +
 				uint32(data[pos+1])<<8 +
 				uint32(data[pos+2])<<16 +
 				uint32(255)<<24)
+			sign = "-"
 			hour = val / 10000
-			minute = -((val % 10000) / 100)
-			second = -(val % 100)
+			minute = (val % 10000) / 100
+			second = val % 100
 		} else {
 			val := int32(data[pos]) +
 				int32(data[pos+1])<<8 +
@@ -423,7 +425,7 @@ func CellBytes(data []byte, pos int, typ byte, metadata uint16, isUnSignedInt bo
 			minute = (val % 10000) / 100
 			second = val % 100
 		}
-		return []byte(fmt.Sprintf("%02d:%02d:%02d", hour, minute, second)), 3, nil
+		return []byte(fmt.Sprintf("%s%02d:%02d:%02d", sign, hour, minute, second)), 3, nil
 
 	case TypeDateTime:
 		val := binary.LittleEndian.Uint64(data[pos : pos+8])
